@@ -95,8 +95,8 @@ def main():
                 'rule is an ANALYSIS-ERROR (exit 2), never a silent pass. Known '
                 'findings are in known_findings.json; fixed defects are '
                 'recorded there with their fix: commits. The thorough tier adds '
-                'the self-validation of the checker (hand variants, 160 kept '
-                'seeded changes, 235 kept behaviour-preserving refactorings, '
+                'the self-validation of the checker (hand variants, 200 kept '
+                'seeded changes, 306 kept behaviour-preserving refactorings, '
                 'mutation and equivalence sweeps). See DESIGN.md for what each '
                 'rule decides and its blind spots.'),
   }
